@@ -28,6 +28,9 @@ type c17Writer struct {
 	Tail     bool  `json:"tail"`      // an unterminated last line follows
 	Cuts     []int `json:"cuts"`      // byte offsets where the script is cut into writes (stream kinds); empty = one write per line
 	DelaysUs []int `json:"delays_us"` // delay before write i (cycled)
+	// EmptyBefore: datagram sockets that are not in one-shot mode: a zero-length
+	// datagram is sent before write i. It carries no line and ends nothing.
+	EmptyBefore []int `json:"empty_before,omitempty"`
 }
 
 type c17Case struct {
@@ -272,6 +275,14 @@ func runC17x(c c17Case, info *c17Info) *vstat.Failure {
 						time.Sleep(time.Duration(d) * time.Microsecond)
 					}
 				}
+				if datagram && !c.OneShot {
+					for _, e := range w.EmptyBefore {
+						if e == k {
+							_, _ = conn.Write(nil)
+							time.Sleep(50 * time.Microsecond)
+						}
+					}
+				}
 				if _, err := conn.Write([]byte(chunk)); err != nil {
 					break
 				}
@@ -455,7 +466,7 @@ func c17RunRaw(raw json.RawMessage) *vstat.Failure {
 }
 
 func TestC17(t *testing.T) {
-	st := vstat.New("C17", "per stream type (named pipe, stdin replaced by a pipe, unix:// and tcp:// stream sockets, unixgram:// and udp:// datagram sockets) 1-4 writers with drawn scripts: tagged lines w<id>:<seq>:<padding>, cut into writes at drawn byte offsets (stream connections, single pipe writer) or one line per write (shared readers: several pipe writers, datagrams), drawn delays between writes, an optional unterminated last line, connections concurrent or one after the other, optional one-shot mode, optional cancellation at a drawn moment. Oracle: every delivered line is exactly one written line, per writer the sequence numbers arrive 0,1,2,... without gap or repeat, without cancellation every script arrives completely including the unterminated tail, and the line channel is closed within a deadline after the last writer closed (pipes, one-shot sockets) or after cancellation. non-trivial = two concurrent stream connections with cuts inside lines, or an unterminated last line; distinct by case")
+	st := vstat.New("C17", "per stream type (named pipe, stdin replaced by a pipe, unix:// and tcp:// stream sockets, unixgram:// and udp:// datagram sockets) 1-4 writers with drawn scripts: tagged lines w<id>:<seq>:<padding>, cut into writes at drawn byte offsets (stream connections, single pipe writer) or one line per write (shared readers: several pipe writers, datagrams), drawn delays between writes, zero-length datagrams in between (datagram sockets outside one-shot mode), an optional unterminated last line, connections concurrent or one after the other, optional one-shot mode, optional cancellation at a drawn moment. Oracle: every delivered line is exactly one written line, per writer the sequence numbers arrive 0,1,2,... without gap or repeat, without cancellation every script arrives completely including the unterminated tail, and the line channel is closed within a deadline after the last writer closed (pipes, one-shot sockets) or after cancellation. non-trivial = two concurrent stream connections with cuts inside lines, or an unterminated last line; distinct by case")
 	st.Assumptions = []string{"interleavings of the writers are whatever the drawn delays and the kernel produce", "datagrams are paced so that the receive buffer does not overflow", "10 s deadlines for events that normally take milliseconds"}
 	st.Run(t, c17RunRaw, func() {
 		kinds := []string{"fifo", "stdin", "unix", "unix", "tcp", "tcp", "unixgram", "udp"}
@@ -498,6 +509,13 @@ func TestC17(t *testing.T) {
 				nd := rapid.IntRange(0, 3).Draw(rt, "ndelays")
 				for k := 0; k < nd; k++ {
 					w.DelaysUs = append(w.DelaysUs, rapid.SampledFrom([]int{0, 0, 20, 200, 2000}).Draw(rt, "delay"))
+				}
+				if (c.Kind == "unixgram" || c.Kind == "udp") && !c.OneShot && w.Lines > 0 && rapid.IntRange(0, 2).Draw(rt, "empties") == 0 {
+					ne := rapid.IntRange(1, 3).Draw(rt, "nempty")
+					for k := 0; k < ne; k++ {
+						w.EmptyBefore = append(w.EmptyBefore, rapid.IntRange(0, w.Lines-1).Draw(rt, "emptyat"))
+					}
+					st.Class("zero-length-datagrams")
 				}
 				c.Writers = append(c.Writers, w)
 			}
